@@ -22,7 +22,7 @@ use crate::{
     util::f64_same,
 };
 
-const RULE: &str = "sequence lane: 2-40 operations through 1-8 clones of Counter/Gauge/Histogram handles built with from_arc / From<Arc<T>> / Arc<Arc<T>> over the standard atomic storage (counter, gauge) and a logging double (histogram, and all three kinds for delivery checks), plus no-op handles; arguments cover u64 extremes, every IntoF64 source type (f64 incl. NaN/inf/-0/subnormal, f32, i8..u32, Duration) and record_many counts 0..4096; the exact sequential model is compared after every step. Non-trivial = a non-finite or extreme argument, or >= 2 clones used. Thread lane: 2-3 threads with 1-5 operations each under an op-granularity generated schedule, model applied in execution order. Stress lane: 16 free-running threads (increment-only counter, gauge fed exactly summable deltas, counter with absolutes sampled for monotonicity). Distinct = distinct decoded (case, schedule).";
+const RULE: &str = "sequence lane: 2-40 operations through 1-8 clones of Counter/Gauge/Histogram handles built with from_arc / From<Arc<T>> / Arc<Arc<T>> over the standard atomic storage (counter, gauge) and a logging double (histogram, and all three kinds for delivery checks), plus no-op handles; arguments cover u64 extremes, every IntoF64 source type (f64 incl. NaN/inf/-0/subnormal, f32, i8..u32, Duration) and record_many counts 0..4096 looped over by a logging double and 65536..usize::MAX (around 2^31, 2^32, 2^63) taken whole by a tallying double; the exact sequential model is compared after every step. Non-trivial = a non-finite or extreme argument, or >= 2 clones used. Thread lane: 2-3 threads with 1-5 operations each under an op-granularity generated schedule, model applied in execution order. Stress lane: 16 free-running threads (increment-only counter, gauge fed exactly summable deltas, counter with absolutes sampled for monotonicity). Distinct = distinct decoded (case, schedule).";
 
 #[derive(Debug, Clone)]
 enum Arg {
@@ -123,7 +123,7 @@ fn dec_step(src: &mut Source, clones: usize) -> Step {
         4 => Step::GDec(c, dec_arg(src)),
         5 => Step::GSet(c, dec_arg(src)),
         6 => Step::HRec(c, dec_arg(src)),
-        7 => Step::HMany(c, dec_arg(src), *src.pick(&[0usize, 1, 2, 3, 64, 65, 4096, 7]).min(&4096)),
+        7 => Step::HMany(c, dec_arg(src), *src.pick(&[0usize, 1, 2, 3, 64, 65, 4096, 7, u32::MAX as usize, 1usize << 32, (1usize << 32) + 7, usize::MAX, 1usize << 63, 65536, i32::MAX as usize + 1, 5])),
         _ => Step::Noop(src.below(3) as u8, dec_arg(src)),
     }
 }
@@ -143,6 +143,21 @@ struct Handles {
     log_counters: Vec<Counter>,
     log_gauges: Vec<Gauge>,
     log: crate::doubles::Log,
+    /// clones of a histogram handle over a storage that takes a whole batch in O(1) (counts above 4096, up to usize::MAX)
+    big_hists: Vec<Histogram>,
+    tally: Arc<Mutex<Vec<(u64, usize)>>>,
+}
+
+/// Histogram storage that overrides `record_many` and notes (value bits, count) per call, so that batch sizes
+/// beyond what can be looped over (2^32 and more) are checked for exact delivery as well.
+struct Tally(Arc<Mutex<Vec<(u64, usize)>>>);
+impl metrics::HistogramFn for Tally {
+    fn record(&self, value: f64) {
+        self.0.lock().unwrap().push((value.to_bits(), 1));
+    }
+    fn record_many(&self, value: f64, count: usize) {
+        self.0.lock().unwrap().push((value.to_bits(), count));
+    }
 }
 
 fn mk_handles(clones: usize) -> Handles {
@@ -155,7 +170,11 @@ fn mk_handles(clones: usize) -> Handles {
     let base_h = Histogram::from_arc(Arc::new(mk_log("h"))); // Arc<Arc<T>> through the blanket impl
     let base_lc = Counter::from_arc(mk_log("c"));
     let base_lg = Gauge::from_arc(mk_log("g"));
+    let tally = Arc::new(Mutex::new(vec![]));
+    let base_big = Histogram::from_arc(Arc::new(Tally(tally.clone())));
     Handles {
+        big_hists: (0..clones).map(|_| base_big.clone()).collect(),
+        tally,
         c_atomic,
         g_atomic,
         counters: (0..clones).map(|_| base_c.clone()).collect(),
@@ -215,6 +234,14 @@ fn apply(h: &Handles, m: &mut Model, step: &Step) -> Result<(), Fail> {
         Step::HRec(c, a) => {
             with_arg!(a, |v| h.hists[*c].record(v.clone()));
             expect_log(h, m, &[Op::HistRecord(a.reference().to_bits())])?;
+        }
+        Step::HMany(c, a, n) if *n > 4096 => {
+            let before = h.tally.lock().unwrap().len();
+            with_arg!(a, |v| h.big_hists[*c].record_many(v.clone(), *n));
+            let got: Vec<(u64, usize)> = h.tally.lock().unwrap()[before..].to_vec();
+            let delivered: u128 = got.iter().map(|(_, k)| *k as u128).sum();
+            ensure!(delivered == *n as u128 && got.iter().all(|(b, _)| f64_same(f64::from_bits(*b), a.reference())), "record-many-count-wrong", "record_many({:?}, {}) through clone {} delivered {:?} to a storage that takes batches whole: {} samples in total", a, n, c, got, delivered);
+            expect_log(h, m, &[])?;
         }
         Step::HMany(c, a, n) => {
             with_arg!(a, |v| h.hists[*c].record_many(v.clone(), *n));
